@@ -613,7 +613,8 @@ class Exec:
         # an implicit exception whose class the contract allows unconditionally is a raising path, not an obligation
         exc = _IMPLICIT_EXC.get(what)
         c = self.fn_stack[0][1] if self.fn_stack else None
-        if exc and c is not None and exc in c.raises and c.raises[exc] is None and len(self.fn_stack) == 1:
+        caught = exc and any(d == len(self.fn_stack) and (names is None or exc in names or "Exception" in names) for d, names in getattr(self, "try_stack", []))
+        if exc and (caught or c is not None and exc in c.raises and c.raises[exc] is None and len(self.fn_stack) == 1):
             cs = st.clone()
             cs.pc.append(z3.Not(goal))
             if self.feasible(cs.pc):
@@ -903,7 +904,21 @@ class Exec:
         if stmt.finalbody or stmt.orelse:
             raise Unsupported("try/finally/else")
         outs = []
-        for kind, s, payload in self.exec_block(stmt.body, st, mod):
+        # implicit exceptions (IndexError, KeyError, ZeroDivisionError, ...) raised directly in the body are routed to the handlers below
+        caught_names = []
+        for h in stmt.handlers:
+            if h.type is None:
+                caught_names = None
+                break
+            caught_names += [h.type.id] if isinstance(h.type, ast.Name) else [e.id for e in getattr(h.type, "elts", []) if isinstance(e, ast.Name)]
+        if not hasattr(self, "try_stack"):
+            self.try_stack = []
+        self.try_stack.append((len(self.fn_stack), caught_names))
+        try:
+            body_outs = self.exec_block(stmt.body, st, mod)
+        finally:
+            self.try_stack.pop()
+        for kind, s, payload in body_outs:
             if kind == "raise":
                 handled = False
                 for h in stmt.handlers:
@@ -1579,6 +1594,14 @@ class Exec:
                     return v
             return vals[-1][0]
         zs = [z3.BoolVal(t) if isinstance(t, bool) else t for t in ts]
+        if any(not (isinstance(v, bool) or (is_z3(v) and z3.is_bool(v))) for v, _ in vals):
+            # Python returns an operand, not a truth value: `x or default`, `a and b` over numbers (or None) give the operand that decided
+            if not all(is_scalar(v) or v is None for v, _ in vals):
+                raise Unsupported(f"line {getattr(node, 'lineno', '?')}: and/or over non-scalar operands used as a value")
+            res = vals[-1][0]
+            for (v, _), z in zip(reversed(vals[:-1]), reversed(zs[:-1])):
+                res = ite_val(z, res, v) if is_and else ite_val(z, v, res)
+            return res
         return z3.And(*zs) if is_and else z3.Or(*zs)
 
     def expr_IfExp(self, node, st, mod):
